@@ -16,6 +16,7 @@ import Mfi.Lemmas.AccL
 import Mfi.Props.C09
 import Mfi.Gen.TxLists
 import Mfi.Lemmas.ConstL
+import Mfi.Lemmas.WorldL
 
 namespace Mfi.Props.C07
 open Mfi Mfi.Fx Mfi.Bank Mfi.Gen
@@ -310,5 +311,61 @@ end tables
     constants on every run; the model computes its own powers of ten and is diffed against the real functions across
     ALL 24 decimals) -/
 theorem scaling_table_is_powers_of_ten : Mfi.Gen.EXP_10_I80F48 = Mfi.Fx.POW10FX := Mfi.ConstL.exp10_table_exact
+
+section whole_instructions
+open Mfi Mfi.World Mfi.Gen Mfi.Gen.Acc
+
+/-! ### the whole instruction (Mfi/Model/World.lean) -/
+
+/-- **world_bankruptcy_spec**: `lending_pool_handle_bankruptcy` goes through only
+    * in a group that is not paused, on an account and a bank of that group, the bank one of the program's own and neither
+      paused nor killed, the account neither in receivership nor in a flash loan (regenerated account checks, interpreted);
+    * for a signer who may settle: anyone if the bank opted in, else the group admin or the risk admin;
+    * when the risk engine's bankruptcy assessment of the account's portfolio AS STORED passes;
+    and then what it books is `Bank.settleBankruptcy` of the bank ACCRUED to the current time on the account's position in
+    that bank (theorems settle_spec / debt_cleared / socialize_spec apply to it), the insurance vault pays the covered
+    amount rounded up, the account is disabled, and a bank whose deposits were consumed is killed. -/
+theorem world_bankruptcy_spec {c : Ctx} {available : Int} {o : BkrOut} (h : World.bankruptcy c available = .ok o) :
+    c.g.paused = false ∧ c.a.group = c.g.key ∧ c.b.group = c.g.key ∧ tagIs .marginfi c.b.books.assetTag = true ∧
+    hasFlag c.a.flags ACCOUNT_IN_RECEIVERSHIP = false ∧ hasFlag c.a.flags ACCOUNT_IN_FLASHLOAN = false ∧
+    Bank.bankruptcyAuthorized (hasFlag c.b.books.flags PERMISSIONLESS_BAD_DEBT_SETTLEMENT_FLAG) c.signer c.g.admin c.g.riskAdmin = true ∧
+    (∃ s, Gate.OpState.ofInt c.b.opState = some s ∧ Gate.validateBankState s .failsInPausedState = none) ∧
+    (∃ ps eq, portfolio c c.a.slots c.b.books = .ok ps ∧ Risk.checkBankrupt ps = .ok eq) ∧
+    ∃ b i x st, Bank.accrueInterest c.b.books c.b.ir c.now = .ok b ∧ Account.findIdx c.a.slots c.b.key = some i ∧
+      balAt c.a.slots i = .ok x ∧ Bank.settleBankruptcy b x available c.now = .ok st ∧
+      o.books = st.bank ∧ o.slots = c.a.slots.set i (ofBal c.b.key st.bal) ∧ o.insuranceTokens = st.coveredUp ∧
+      o.opState = (if st.kill then 3 else c.b.opState) ∧ o.flags = c.a.flags ||| ACCOUNT_DISABLED.toNat := by
+  unfold World.bankruptcy at h
+  obtain ⟨_, hc, h⟩ := Res.bind_ok h
+  obtain ⟨_, hs, h⟩ := Res.bind_ok h
+  obtain ⟨_, ha, h⟩ := Res.bind_ok h
+  obtain ⟨ps, hps, h⟩ := Res.bind_ok h
+  obtain ⟨eq, heq, h⟩ := Res.bind_ok h
+  obtain ⟨b, hb, h⟩ := Res.bind_ok h
+  have hc' := runChecks_ok hc
+  simp only [checks, List.forall_mem_cons, List.not_mem_nil, false_imp_iff, implies_true, and_true] at hc'
+  simp [evalChk, Ctx.env, flBit, flagsOf, AccV.key] at hc'
+  obtain ⟨c1, c2, c3, c4, c5, c6⟩ := hc'
+  split at h
+  · cases h
+  · rename_i i hi
+    obtain ⟨x, hx, h⟩ := Res.bind_ok h
+    obtain ⟨st, hst, h⟩ := Res.bind_ok h
+    injection h with h
+    subst h
+    exact ⟨c1, c4, c2, c3, c5, c6, Bank.chk_ok ha, bankState_ok hs, ⟨ps, eq, hps, heq⟩,
+      b, i, x, st, hb, hi, hx, hst, rfl, rfl, rfl, rfl, rfl⟩
+
+/-- … in particular a bank that is paused or was killed by an earlier bankruptcy settles nothing -/
+theorem world_bankruptcy_needs_live_bank (c : Ctx) (available : Int)
+    (h : Gate.OpState.ofInt c.b.opState = some .paused ∨ Gate.OpState.ofInt c.b.opState = some .killedByBankruptcy) :
+    (World.bankruptcy c available).isOk = false := by
+  cases hr : World.bankruptcy c available with
+  | error e => rfl
+  | ok o =>
+    obtain ⟨_, _, _, _, _, _, _, ⟨s, hs, hv⟩, _⟩ := world_bankruptcy_spec hr
+    rcases h with h | h <;> rw [h] at hs <;> injection hs with hs <;> subst hs <;> simp [Gate.validateBankState] at hv
+
+end whole_instructions
 
 end Mfi.Props.C07
